@@ -659,6 +659,11 @@ def impl(stream, line):
         try:
             if stream == "detectfull":
                 io.DEFAULT_BUFFER_SIZE = int(w[4])
+            # detection is a function of the file CONTENT: the handle may stand anywhere when from_file is called (after an earlier
+            # read, after a first from_file on the same handle) - position chosen from the case line, so a replay repeats it
+            import zlib as _zlib
+            _n = len(C.unhx(w[3]))
+            fh.seek([0, 0, 3, 7, _n // 2, max(_n - 1, 0), _n, 1024, 1030][_zlib.crc32(line.encode()) % 9])
             xf = XorEncodedFile.from_file(fh, **C.drop_defaults(line, {"maxrange": 1024}, maxrange=int(w[2])))
             head = f"ok {xf.nonce_offset} {fh.tell()} {xf.tell()}"
             return head + " " + C.hx(xf.read(12))
